@@ -112,7 +112,7 @@ pub fn inline_menu() -> Vec<Vec<N>> {
         vec![t("qa")],
         vec![t("qb qc")],
         vec![t("qdqdqdqd qe")],
-        vec![t(" qf "), e("em", vec![t("qg")]), t(" qh")],
+        vec![t(" qf Qa "), e("em", vec![t("qg")]), t(" qh")],
         vec![t("q中 中r")],
         vec![ea("a", &[("href", "/1")], vec![t("qi")]), t(" qj")],
         vec![t("qk"), e("br", vec![]), t("ql")],
